@@ -155,6 +155,7 @@ class mm_reader {
                 // line already holds the matrix sizes
                 is.clear(); is.str(line);
                 precondition(is >> n >> m >> nnz, format_error());
+                precondition(n >= 0 && m >= 0, format_error("negative size"));
             }
 
             if (row_beg < 0) row_beg = 0;
@@ -187,6 +188,16 @@ class mm_reader {
 
                 i -= 1;
                 j -= 1;
+
+                {
+                    // Indices should be consistent with the declared sizes.
+                    const ptrdiff_t ii = static_cast<ptrdiff_t>(i);
+                    const ptrdiff_t jj = static_cast<ptrdiff_t>(j);
+                    precondition(ii >= 0 && ii < n && jj >= 0 && jj < m,
+                            format_error("index out of range"));
+                    precondition(!_symmetric || (jj < n && ii < m),
+                            format_error("index out of range"));
+                }
 
                 v = read_value<Val>(is);
 
@@ -263,6 +274,7 @@ class mm_reader {
                 // line already holds the matrix sizes
                 is.clear(); is.str(line);
                 precondition(is >> n >> m, format_error());
+                precondition(n >= 0 && m >= 0, format_error("negative size"));
             }
 
             if (row_beg < 0) row_beg = 0;
